@@ -64,7 +64,8 @@ let run k line =
     | "remove_hosts_mortality_too_high" ->
       res (P.completely_remove fixture (z_of_int 1) (zeros 2) (z_of_int 1) [z_of_int 5; z_of_int 0])
     | "make_resistant_length" ->
-      res (P.make_resistant fixture (z_of_int 1) (zeros (i 1)) (z_of_int 1) (zeros (i 2)))
+      let inf = if Array.length t > 3 then i 3 else 1 in
+      res (P.make_resistant fixture (z_of_int 1) (zeros (i 1)) (z_of_int inf) (zeros (i 2)))
     | "make_resistant_too_many" ->
       res (P.make_resistant fixture (z_of_int 100) (zeros 2) (z_of_int 0) (zeros 2))
     | "weather_mean_range" ->
